@@ -136,8 +136,9 @@ func (self *Compiler) compileFn(node ast.AnalyzedFunctionDefinition) (annotation
 
 	singletonExtractors := make([]ast.AnalyzedFnParam, 0)
 
-	// Parameters are pushed in reverse-order, so they can be popped in the correct order.
-	for _, param := range node.Parameters.List {
+	// Arguments are pushed in the order of the parameters, so they are popped in reverse order.
+	for i := len(node.Parameters.List) - 1; i >= 0; i-- {
+		param := node.Parameters.List[i]
 		// TODO: If the current parameter is a singleton extraction, do extra work.
 		// Add a name-alias for the singleton so that each time the extracted name is used, the singleton is accessed instead.
 
